@@ -263,6 +263,7 @@ inline void run_case(const std::string &serialised, F body) {
     } catch(const Fail &f) {
         c.last_failing_case = serialised;
         c.last_failing_msg = f.msg;
+        if(const char *tf = getenv("VERIF_TRACE_FAIL")) { fprintf(stderr, "TRACE-FAIL %s\n", f.msg.substr(0, 300).c_str()); fflush(stderr); if(tf[0] == '/') { FILE *fo = fopen(tf, "wb"); if(fo) { fwrite(serialised.data(), 1, serialised.size(), fo); fclose(fo); } } } // triage aid: every failing candidate, incl. shrink steps
         throw;
     }
     end_case_ok();
